@@ -358,6 +358,57 @@ RULE_F1 = (
     'distinct by (n, stages, consumer, source failure, schedule trace prefix).'
 )
 
+# ------------------------------------------------------------------ F5: collection by the cyclic garbage collector
+
+
+@st.composite
+def gc_spec(draw):
+    nops = draw(st.integers(1, 2))
+    ops = []
+    for i in range(nops):
+        kinds = ['buffer', 'parmap', 'parmap_async'] + (['map'] if i < nops - 1 else [])
+        k = draw(st.sampled_from(kinds))
+        ops.append([k, draw(st.sampled_from([1, 2, 3, 5]))])
+    n = draw(st.sampled_from([0, 1, 3, 10, 40, 1000]))
+    return {
+        'ops': ops,
+        'n': n,
+        'take': draw(st.integers(0, min(n, 6))),
+        'pause_ms': draw(st.sampled_from([0, 100, 300])),
+        'where': draw(st.sampled_from(['plain', 'plain', 'threading_critical_section'])),
+    }
+
+
+def run_gc(spec):
+    import json
+    import os
+    import subprocess
+    import sys
+
+    env = dict(os.environ)
+    try:
+        p = subprocess.run([sys.executable, os.path.join(os.path.dirname(os.path.abspath(__file__)), 'gcprobe_main.py'), json.dumps(spec)], capture_output=True, text=True, timeout=60, env=env)
+        line = [l for l in p.stdout.splitlines() if l.startswith('{')]
+        res = json.loads(line[-1]) if line else None
+    except subprocess.TimeoutExpired:
+        res = None
+        p = None
+    if res is None:
+        raise Violation('gc_probe_failed', f"the probe interpreter gave no report: {(p.stderr[-600:] if p is not None else 'no exit within 60 s')}", signature=['gc_probe_failed'])
+    if not res['collected']:
+        if spec['where'] == 'threading_critical_section':
+            raise Violation('gc_in_critical_section_deadlock', f"(cyclic collection inside threading's start/stop critical section) the finalization of the abandoned iterator of {spec['ops']} joins a helper thread there and dead-locks the collecting thread", signature=['gc_in_critical_section_deadlock'])
+        raise Violation('gc_finalization_hang', f"collecting the abandoned iterator of {spec['ops']} (n={spec['n']}, {res['outs']} taken) did not return within 10 s", signature=['gc_finalization_hang'])
+    if res['left_threads']:
+        raise Violation('leak_after_gc', f"3 s after the abandoned iterator of {spec['ops']} was collected these helper threads are still alive: {res['left_threads']}", signature=['leak_after_gc'])
+    return CaseInfo(
+        nontrivial=res['outs'] < spec['n'],
+        descriptor=spec,
+        classes=('gc', spec['where'], 'abandoned_midway' if res['outs'] < spec['n'] else 'exhausted', *(o[0] for o in spec['ops'])),
+        sample=dict(spec, outs=res['outs']),
+    )
+
+
 FAMILIES = [
     Family(
         name='F1_sync',
@@ -388,4 +439,8 @@ FAMILIES = [
     Family('F4_process_executor', 'real', proc_spec(), run_proc, quick=16, thorough=500, shards_quick=8, shards_thorough=12, shrink=False,
            rule='Stream(generator).[buffer(m)].parmap(fn, executor="process", concurrency 1-3) with real worker processes: consume all / break / close at k / worker failure at k (return_exceptions on/off) / source failure at k; '
            'oracle: transcript == sequential meaning; no worker process and no helper thread left after close (3 s grace for process exit); watchdog 3x rule. Non-trivial: early stop or failure with elements still ahead.'),
+    Family('F5_cyclic_gc', 'pure', gc_spec(), run_gc, quick=40, thorough=1500, shards_quick=8, shards_thorough=12, shrink=False,
+           rule='real threads, one fresh interpreter per case: Stream(range(n)).[map].{buffer(m) | parmap(thread, c) | parmap(coroutine, c)} x1-2, 0-6 elements taken, then the iterator is abandoned inside a reference cycle '
+           'and freed by gc.collect() in a helper thread - in an ordinary context (2/3) or while that thread holds the lock of threading.py under which every thread starts and stops (1/3; an allocation there can trigger a collection). '
+           'Oracle: the collection returns within 10 s and no helper thread is alive 3 s later. Non-trivial: abandoned before the end.'),
 ]
